@@ -38,7 +38,7 @@ type Rec struct {
 	T   time.Time `sod:"index"`
 	P   int
 	Q   float64 // unindexed payload; NaN makes the object unserialisable
-	L   string `sod:"lower"`
+	L   string  `sod:"lower"`
 	In  *Inner
 	Emb
 	Sl  []int
